@@ -189,7 +189,7 @@ func distinct(t *rm.Type, n *int) *rm.Value {
 	if di := t.DynField(); di >= 0 {
 		f := &t.Fields[di]
 		tab := t.Proto.Table(f.Factory)
-		k := tab.Order[len(tab.Order)-1]
+		k := richestKey(t.Proto, tab)
 		rm.SetDyn(v, k, distinct(t.Proto.Type(tab.Entries[k]), n))
 	}
 	return v
@@ -413,7 +413,11 @@ func FixTextAlphabet(f *rm.Field, o Opts) [][]byte {
 		add([]byte{0xE4, 0xB8}) // truncated multi-byte rune
 	}
 	add([]byte{0x80})
+	if n >= 3 {
+		add([]byte{0xE4, 0xB8, 0xAD}) // one valid 3-byte character: byte length and character count differ
+	}
 	if n >= 2 {
+		add([]byte{0xC3, 0xA9})
 		add([]byte{' ', 'a'})
 		add([]byte{'a', ' '})
 		add([]byte{0, 'a'})
@@ -492,7 +496,7 @@ func lenTextAlphabet(f *rm.Field, o Opts, leaf int) []member {
 		}
 		out = append(out, member{desc: "30000 three-byte runes (90000 bytes)", v: rm.Text(mb), heavy: true})
 	}
-	for _, s := range [][]byte{{0}, {0xFF, 0xFE}, {0x80}, {' '}, {' ', ' '}, {'0'}} {
+	for _, s := range [][]byte{{0}, {0xFF, 0xFE}, {0x80}, {' '}, {' ', ' '}, {'0'}, {0xE4, 0xB8, 0xAD}, {'a', 0xE4, 0xB8, 0xAD, 'b'}, {0xC3, 0xA9}, {0xF0, 0x9F, 0x98, 0x80}} {
 		out = append(out, member{desc: fmt.Sprintf("%q", s), v: rm.Text(s)})
 	}
 	return out
@@ -726,4 +730,39 @@ func hugeify(v *rm.Value) bool {
 		}
 	}
 	return false
+}
+
+// richestKey picks the registered key whose body type has the most fields (ties: the later registration),
+// so that base D carries as much body structure as the table offers.
+func richestKey(p *rm.Proto, tab *rm.Table) string {
+	best, bestN := tab.Order[len(tab.Order)-1], -1
+	for _, k := range tab.Order {
+		if n := fieldCount(p, p.Type(tab.Entries[k]), 0); n >= bestN {
+			best, bestN = k, n
+		}
+	}
+	return best
+}
+
+func fieldCount(p *rm.Proto, t *rm.Type, depth int) int {
+	if depth > 4 {
+		return 0
+	}
+	n := 0
+	for i := range t.Fields {
+		f := &t.Fields[i]
+		n++
+		switch f.Kind {
+		case "struct":
+			n += fieldCount(p, p.Type(f.Type), depth+1)
+		case "list":
+			n += 2
+			if f.Elem.Kind == "struct" {
+				n += fieldCount(p, p.Type(f.Elem.Type), depth+1)
+			}
+		case "dyn":
+			n += 3
+		}
+	}
+	return n
 }
